@@ -269,8 +269,13 @@ class FIXTester:
         clord_id = cxl_req[FTag.ClOrdID]
         orig_clord_id = cxl_req[FTag.OrigClOrdID]
 
+        # OrderID the order is known by from its execution reports
+        #   ("NONE": unknown order or not acknowledged yet)
+        order = self.registered_orders.get(clord_id)
+        order_id = order.order_id if order is not None else None
+
         m = FIXMessage(FMsg.ORDERCANCELREJECT)
-        m[37] = 0
+        m[37] = "NONE" if order_id is None else order_id
         m[11] = clord_id
         m[41] = orig_clord_id
         m[39] = ord_status
